@@ -25,7 +25,7 @@ def client_group(reset):
 def client_constants(key):
     mif, buf, mode, cap = key
     return dict(Callers="<-MechCallers", MaxInFlight=mif, Buf=buf, Deadlines="{}", MaxTime=0, PeerBudget=0,
-                SinkMode='"%s"' % mode, Cap=cap, FaultOps="{}", AllowEof=False, AllowHandleDrop=False,
+                SinkMode='"%s"' % mode, Cap=cap, FaultOps="{}", FaultKs="{}", AllowEof=False, AllowHandleDrop=False,
                 AtomicPolls=True, FixF9=True, Mutant='"none"', ExportSched=False)
 
 
